@@ -263,8 +263,8 @@ fn check_history(report: &Report, rt: &Arc<tokio::runtime::Runtime>, hist_names:
                 report.eval(None::<&u8>);
                 let events = crate::hops::thread_events(&fx, &thread);
                 let decided = events.iter().find_map(|e| match &e.kind {
-                    EventKind::ContinuityContextSelectionDecided { run_session_id, compiler_strategy, compaction_checkpoints, .. } if *run_session_id == sid => {
-                        Some((compiler_strategy.clone(), serde_json::to_value(compaction_checkpoints).unwrap_or(Value::Null)))
+                    EventKind::ContinuityContextSelectionDecided { run_session_id, compiler_strategy, compaction_checkpoints, compaction_checkpoint, .. } if *run_session_id == sid => {
+                        Some((compiler_strategy.clone(), serde_json::to_value(compaction_checkpoints).unwrap_or(Value::Null), serde_json::to_value(compaction_checkpoint).unwrap_or(Value::Null)))
                     }
                     _ => None,
                 });
@@ -276,7 +276,7 @@ fn check_history(report: &Report, rt: &Arc<tokio::runtime::Runtime>, hist_names:
                 });
                 let anchor_idx = msg_ids.len();
                 match (&want, decided, compiled) {
-                    (Ok(w), Some((d_strategy, d_ckpts)), Some((bundle_id, c_strategy, c_from_seq, c_from_msg))) => {
+                    (Ok(w), Some((d_strategy, d_ckpts, d_primary)), Some((bundle_id, c_strategy, c_from_seq, c_from_msg))) => {
                         let d_ids: Vec<(String, u64)> = d_ckpts.as_array().cloned().unwrap_or_default().iter().map(|c| (c["checkpoint_id"].as_str().unwrap_or("").to_string(), c["to_seq"].as_u64().unwrap_or(0))).collect();
                         let bundle: Value = std::fs::read(fx.root.join(".rip/artifacts/blobs").join(&bundle_id)).ok().and_then(|b| serde_json::from_slice(&b).ok()).unwrap_or(Value::Null);
                         let b_dialogue: Vec<(String, String)> = bundle["items"]
@@ -303,6 +303,13 @@ fn check_history(report: &Report, rt: &Arc<tokio::runtime::Runtime>, hist_names:
                         }
                         if d_ids != w.checkpoints {
                             diffs.push(format!("decided checkpoints {:?}, compile entry {:?}", d_ids, w.checkpoints));
+                        }
+                        // the decision's primary checkpoint is the NEWEST selected one (the summary the
+                        // bundle's messages come after), or absent when none was selected
+                        let newest = w.checkpoints.iter().max_by_key(|c| c.1).cloned();
+                        let primary = d_primary.get("checkpoint_id").and_then(|x| x.as_str()).map(|id| (id.to_string(), d_primary["to_seq"].as_u64().unwrap_or(0)));
+                        if primary != newest {
+                            diffs.push(format!("the decision names {:?} as its checkpoint; the newest selected one is {:?}", primary, newest));
                         }
                         if c_from_seq != w.from_seq || c_from_msg != w.from_message_id {
                             diffs.push(format!("compiled frame cut ({c_from_seq}, {c_from_msg:?}), compile entry ({}, {:?})", w.from_seq, w.from_message_id));
